@@ -131,12 +131,15 @@ func verifC10Record(r *verifRunner, rec map[string]any) {
 	}
 	att := map[string]any{}
 	tann := map[string]any{}
+	tsupd := map[string]any{}
 	for _, tn := range r.b.Cfg.Topics {
 		l := []map[string]any{}
 		cn := w.canon(tn)
 		tann[tn] = false
+		tsupd[tn] = false
 		if tp := w.hub.topicGet(cn); tp != nil && cn != "" && !tp.isInactive() {
 			tann[tn] = tp.isLoaded()
+			tsupd[tn] = tp.supd != nil // set once by the topic's initialiser, before the actor starts
 			for s, pssd := range tp.sessions {
 				name := ""
 				for n, vs := range w.sess {
@@ -161,7 +164,7 @@ func verifC10Record(r *verifRunner, rec map[string]any) {
 		}
 		sb[s] = e
 	}
-	c10 := map[string]any{"me": me, "att": att, "sess": sb, "ann": tann}
+	c10 := map[string]any{"me": me, "att": att, "sess": sb, "ann": tann, "supd": tsupd}
 	if os.Getenv("VERIF_C10_SELFTEST") == "1" {
 		// self-test of the binding (never set by tools/props/c10.py in normal runs): corrupt one recorded observation —
 		// the online counter of the first attached user of every loaded group topic is reported one too high.
